@@ -234,6 +234,10 @@ def run(ctx):
         "function f(c) { if (c) { var %(A)s = 1; } else { var %(B)s = 2; } return c; }",
         "function f(c) { { var %(A)s = c; } { var %(B)s = c; c = %(B)s + 1; } return c; }",
         "template T(n) { signal input in; signal output out; { var %(A)s = n; } component %(B)s = U(); %(B)s.a <== in; out <== in; }",
+        # two components in sibling scopes, the output of one of them unused (audit C10 round 2 f1: the unused-output pass compared source names)
+        "template T(n) { signal input in; signal output out; if (n == 1) { component %(A)s = U(); %(A)s.a <== in; out <== %(A)s.b; } else { component %(B)s = U(); %(B)s.a <== in; out <== in; } }",
+        "template T(n) { signal input in; signal output out; { component %(A)s = U(); %(A)s.a <== in; out <== %(A)s.b; } { component %(B)s = U(); %(B)s.a <== in; } }",
+        "template T(n) { signal input in; signal output out; for (var i = 0; i < 1; i++) { component %(A)s = U(); %(A)s.a <== in; } component %(B)s = U(); %(B)s.a <== in; out <== %(B)s.b; }",
     ]
     with vlib.Workdir("c10b") as wd2:
         reqs4, metas4 = [], []
